@@ -127,6 +127,119 @@ theorem optVal_in_range (mode : Int) (x lo hi cur : UInt32) (hm : mode ≠ Gen.R
     · split <;> omega
     · exact hc
 
+/-! ### PDUs that arrive in pieces -/
+
+/-- the scripted transport honours the timeout it is given -/
+theorem mockRecv_clock (len : Nat) (t now : Int) (fr : List Frag) (ht : 0 ≤ t) :
+    now ≤ (mockRecv len t now fr).2.1 ∧ (mockRecv len t now fr).2.1 ≤ now + t := by
+  cases fr with
+  | nil => simp only [mockRecv]; omega
+  | cons f rest =>
+    simp only [mockRecv]
+    split <;> simp only <;> omega
+
+/-- `tr_recv_all`: every transport call gets exactly the time that is left until `end_time`; the
+    clock never passes `end_time` inside the loop -/
+theorem recvAll_spec (endTime : Int) (fuel : Nat) :
+    ∀ (rem : Nat) (now : Int) (fr : List Frag), now ≤ endTime →
+      (∀ c ∈ (recvAll endTime fuel rem now fr).calls,
+          c.timeout = endTime - c.now ∧ now ≤ c.now ∧ c.now ≤ endTime) ∧
+      now ≤ (recvAll endTime fuel rem now fr).now ∧ (recvAll endTime fuel rem now fr).now ≤ endTime := by
+  induction fuel with
+  | zero =>
+    intro rem now fr h
+    simp only [recvAll, List.not_mem_nil, false_imp_iff, implies_true, true_and]
+    omega
+  | succ fuel ih =>
+    intro rem now fr h
+    unfold recvAll
+    split
+    · simp only [List.not_mem_nil, false_imp_iff, implies_true, true_and]
+      omega
+    · have hc := mockRecv_clock rem (endTime - now) now fr (by omega)
+      dsimp only
+      generalize mockRecv rem (endTime - now) now fr = m at hc ⊢
+      obtain ⟨o, now', fr'⟩ := m
+      simp only at hc
+      cases o with
+      | none =>
+        simp only [List.mem_singleton, forall_eq]
+        refine ⟨⟨trivial, ?_, ?_⟩, ?_, ?_⟩ <;> omega
+      | some k =>
+        have ih' := ih (rem - k) now' fr' (by omega)
+        simp only [List.mem_cons, forall_eq_or_imp]
+        refine ⟨⟨⟨trivial, by omega, h⟩, ?_⟩, by omega, ih'.2.2⟩
+        intro c hcm
+        have := ih'.1 c hcm
+        omega
+
+/-- the first transport call of a `tr_recv_all` that has something to read happens at once -/
+theorem recvAll_first (endTime : Int) (fuel rem : Nat) (now : Int) (fr : List Frag) (hr : rem ≠ 0) :
+    ∃ tl, (recvAll endTime (fuel + 1) rem now fr).calls = ⟨rem, endTime - now, now⟩ :: tl := by
+  unfold recvAll
+  rw [if_neg hr]
+  dsimp only
+  split
+  · exact ⟨[], rfl⟩
+  · exact ⟨_, rfl⟩
+
+theorem hdr_pos : Gen.sizeof_pdu_header = 7 + 1 := by decide
+
+/-- **`rtr_receive_pdu` under a clock.**  Entered at `now` with a non-negative `timeout`: every
+    transport call for the header is given exactly the time left until `now + timeout` (never a
+    negative value); every call for the rest of the PDU at most RTR_RECV_TIMEOUT; the function
+    returns no later than `now + timeout` when the header did not arrive completely, and no later
+    than `now + timeout + RTR_RECV_TIMEOUT` in any case. -/
+theorem receivePdu_spec (body : Nat) (t now : Int) (fr : List Frag) (ht : 0 ≤ t) :
+    (∀ c ∈ (receivePdu body t now fr).hcalls, 0 ≤ c.timeout ∧ c.now + c.timeout = now + t ∧ now ≤ c.now) ∧
+    (∀ c ∈ (receivePdu body t now fr).bcalls,
+        0 ≤ c.timeout ∧ c.timeout ≤ (Gen.RTR_RECV_TIMEOUT : Int) ∧ now ≤ c.now) ∧
+    now ≤ (receivePdu body t now fr).now ∧
+    (receivePdu body t now fr).now ≤ now + t + (Gen.RTR_RECV_TIMEOUT : Int) ∧
+    ((receivePdu body t now fr).bcalls = [] → (receivePdu body t now fr).now ≤ now + t) := by
+  have hh := recvAll_spec (now + t) Gen.sizeof_pdu_header Gen.sizeof_pdu_header now fr (by omega)
+  have hT : (0 : Int) ≤ (Gen.RTR_RECV_TIMEOUT : Int) := Int.natCast_nonneg _
+  have hhc : ∀ c ∈ (recvAll (now + t) Gen.sizeof_pdu_header Gen.sizeof_pdu_header now fr).calls,
+      0 ≤ c.timeout ∧ c.now + c.timeout = now + t ∧ now ≤ c.now := by
+    intro c hc
+    have := hh.1 c hc
+    omega
+  unfold receivePdu
+  dsimp only
+  generalize hg : recvAll (now + t) Gen.sizeof_pdu_header Gen.sizeof_pdu_header now fr = h at hh hhc ⊢
+  split
+  · dsimp only
+    refine ⟨hhc, ?_, hh.2.1, by omega, fun _ => hh.2.2⟩
+    simp only [List.not_mem_nil, false_imp_iff, implies_true]
+  · rename_i hcond
+    have hb0 : body ≠ 0 := fun c => hcond (Or.inr c)
+    have hb := recvAll_spec (h.now + (Gen.RTR_RECV_TIMEOUT : Int)) body body h.now h.rest (by omega)
+    dsimp only
+    refine ⟨hhc, ?_, by omega, by omega, ?_⟩
+    · intro c hc
+      have := hb.1 c hc
+      omega
+    · intro hnil
+      obtain ⟨b', hb'⟩ := Nat.exists_eq_succ_of_ne_zero hb0
+      obtain ⟨tl, htl⟩ := recvAll_first (h.now + (Gen.RTR_RECV_TIMEOUT : Int)) b' body h.now h.rest hb0
+      rw [hb'] at hnil
+      rw [hb'] at htl
+      rw [htl] at hnil
+      exact absurd hnil (List.cons_ne_nil _ _)
+
+/-- the first transport call of `rtr_receive_pdu` asks for the header with the caller's timeout -/
+theorem receivePdu_first (body : Nat) (t now : Int) (fr : List Frag) :
+    ∃ tl, (receivePdu body t now fr).hcalls = ⟨Gen.sizeof_pdu_header, t, now⟩ :: tl := by
+  obtain ⟨tl, htl⟩ := recvAll_first (now + t) 7 Gen.sizeof_pdu_header now fr (by decide)
+  have e : now + t - now = t := by omega
+  rw [e] at htl
+  unfold receivePdu
+  dsimp only
+  rw [hdr_pos] at htl ⊢
+  split
+  · exact ⟨tl, htl⟩
+  · exact ⟨tl, htl⟩
+
 /-! ### traces of the established phase -/
 
 /-- every wait is followed (if by anything) by a transport action that happens within the timeout
@@ -146,6 +259,19 @@ theorem arrival_bounds (ev : Ev) (now t : Int) (ht : 0 ≤ t) :
   unfold arrival
   split <;> omega
 
+theorem pollsOk_recv (len : Nat) (t now : Int) (l : List TraceItem) : pollsOk (.recv len t now :: l) = pollsOk l := by
+  simp only [pollsOk]
+
+theorem pollsOk_send (ty : Nat) (now : Int) (l : List TraceItem) : pollsOk (.send ty now :: l) = pollsOk l := by
+  simp only [pollsOk]
+
+theorem pollsOk_callItems (cs : List RecvCall) (l : List TraceItem) : pollsOk (callItems cs ++ l) = pollsOk l := by
+  induction cs with
+  | nil => rfl
+  | cons c cs ih =>
+    show pollsOk (.recv c.len c.timeout c.now :: (callItems cs ++ l)) = pollsOk l
+    rw [pollsOk_recv, ih]
+
 theorem fsmEstablished_head (ver : Nat) (s : Sock) (now : Int) (evs : List Ev) :
     ∃ tl, fsmEstablished ver s now evs = .wait (waitTimeout s now) now :: tl := by
   cases evs with
@@ -153,13 +279,17 @@ theorem fsmEstablished_head (ver : Nat) (s : Sock) (now : Int) (evs : List Ev) :
   | cons ev rest =>
     unfold fsmEstablished
     simp only
-    generalize arrival ev now (waitTimeout s now) = a
     split
     · split
       · exact ⟨_, rfl⟩
       · exact ⟨_, rfl⟩
-    · exact ⟨_, rfl⟩
-    · exact ⟨_, rfl⟩
+    · generalize arrival ev now (waitTimeout s now) = a
+      split
+      · split
+        · exact ⟨_, rfl⟩
+        · exact ⟨_, rfl⟩
+      · exact ⟨_, rfl⟩
+      · exact ⟨_, rfl⟩
 
 theorem fsmEstablished_pollsOk (ver : Nat) (evs : List Ev) :
     ∀ (s : Sock) (now : Int), pollsOk (fsmEstablished ver s now evs) = true := by
@@ -168,23 +298,42 @@ theorem fsmEstablished_pollsOk (ver : Nat) (evs : List Ev) :
   | cons ev rest ih =>
     intro s now
     have hb := arrival_bounds ev now (waitTimeout s now) (waitTimeout_nonneg s now)
+    have ht := waitTimeout_nonneg s now
     unfold fsmEstablished
     simp only
-    generalize arrival ev now (waitTimeout s now) = a at hb
     split
-    · split
-      · obtain ⟨tl, htl⟩ := fsmEstablished_head ver (syncCrEod s ver ev.e ev.r ev.y a).1 a rest
-        have ihh := ih (syncCrEod s ver ev.e ev.r ev.y a).1 a
+    · -- a Serial Notify in fragments: the first transport call happens at once
+      obtain ⟨tl, htl⟩ := receivePdu_first notifyBody (waitTimeout s now) now ev.frags
+      have hfirst : ∀ l, pollsOk (.wait (waitTimeout s now) now ::
+          callItems ((waitPdu s now notifyBody ev.frags).hcalls ++ (waitPdu s now notifyBody ev.frags).bcalls) ++ l) =
+          pollsOk l := by
+        intro l
+        unfold waitPdu
+        rw [htl]
+        show pollsOk (.wait (waitTimeout s now) now :: .recv Gen.sizeof_pdu_header (waitTimeout s now) now ::
+          (callItems (tl ++ (receivePdu notifyBody (waitTimeout s now) now ev.frags).bcalls) ++ l)) = pollsOk l
+        have hp : now ≤ now + waitTimeout s now := by omega
+        simp only [pollsOk, TraceItem.time, pollsOk_callItems, Int.le_refl, hp, and_self, decide_true, Bool.true_and]
+      split
+      · rw [hfirst, pollsOk_send]
+        exact ih _ _
+      · rw [hfirst]
+        rfl
+    · generalize arrival ev now (waitTimeout s now) = a at hb
+      split
+      · split
+        · obtain ⟨tl, htl⟩ := fsmEstablished_head ver (syncCrEod s ver ev.e ev.r ev.y a).1 a rest
+          have ihh := ih (syncCrEod s ver ev.e ev.r ev.y a).1 a
+          rw [htl] at ihh ⊢
+          simp only [pollsOk, TraceItem.time, Bool.and_eq_true]
+          exact ⟨decide_eq_true hb, ihh⟩
+        · simp only [pollsOk, TraceItem.time, Bool.and_eq_true, and_true]
+          exact decide_eq_true hb
+      · obtain ⟨tl, htl⟩ := fsmEstablished_head ver s a rest
+        have ihh := ih s a
         rw [htl] at ihh ⊢
         simp only [pollsOk, TraceItem.time, Bool.and_eq_true]
         exact ⟨decide_eq_true hb, ihh⟩
-      · simp only [pollsOk, TraceItem.time, Bool.and_eq_true, and_true]
-        exact decide_eq_true hb
-    · obtain ⟨tl, htl⟩ := fsmEstablished_head ver s a rest
-      have ihh := ih s a
-      rw [htl] at ihh ⊢
-      simp only [pollsOk, TraceItem.time, Bool.and_eq_true]
-      exact ⟨decide_eq_true hb, ihh⟩
-    · rfl
+      · rfl
 
 end Rtr.Intervals
